@@ -63,9 +63,15 @@ def bridge(canaries, with_attrs):
             a = f"#[diplomat::attr({rust_f(c['f'])}, {pay})]\n"
         extra = c.get("more", []) if with_attrs else []
         at = lambda p: (a if pl == p else "") + "".join(f"#[diplomat::attr({rust_f(f2)}, disable)]\n" for (p2, f2) in extra if p2 == p)
-        body = (f"    #[diplomat::opaque]\n    {at('type')}    pub struct T{k};\n"
-                f"    impl T{k} {{\n        #[diplomat::attr(auto, constructor)]\n        pub fn new() -> Box<T{k}> {{ Box::new(T{k}) }}\n    }}\n"
-                f"    {at('impl')}    impl T{k} {{\n        {at('method')}        pub fn orig{k}m(&self, w: &mut DiplomatWrite) {{}}\n    }}\n")
+        kind = c.get("kind", "opaque")
+        if kind == "opaque":
+            body = (f"    #[diplomat::opaque]\n    {at('type')}    pub struct T{k};\n"
+                    f"    impl T{k} {{\n        #[diplomat::attr(auto, constructor)]\n        pub fn new() -> Box<T{k}> {{ Box::new(T{k}) }}\n    }}\n"
+                    f"    {at('impl')}    impl T{k} {{\n        {at('method')}        pub fn orig{k}m(&self, w: &mut DiplomatWrite) {{}}\n    }}\n")
+        else:   # enums and structs inherit through their own lowering paths
+            decl = f"pub enum T{k} {{ A, B }}" if kind == "enum" else f"pub struct T{k} {{ pub a: u8 }}"
+            body = (f"    {at('type')}    {decl}\n"
+                    f"    {at('impl')}    impl T{k} {{\n        {at('method')}        pub fn orig{k}m(self, w: &mut DiplomatWrite) {{}}\n    }}\n")
         if pl == "module":
             mods.append(f"#[diplomat::bridge]\n{at('module')}mod ffi_m{k} {{\n    use diplomat_runtime::DiplomatWrite;\n{body}}}\n")
         else:
@@ -116,6 +122,8 @@ def check(ctx, replay=None):
     for j, (f, pl) in enumerate(rng.sample(forms, min(len(forms), 60 if ctx.quick() else 400))):
         k = nr + j
         canaries.append({"k": k, "place": pl, "f": f, "payload": (f"Ren{k}x" if pl in ("module", "type") else f"ren{k}m")})
+    for c in canaries:
+        c["kind"] = ("opaque", "enum", "struct")[c["k"] % 3]
     if replay and "canary" in replay.get("replay", {}):
         canaries = [replay["replay"]["canary"]]
     d = os.path.join(BUILD, "e2e", "c13")
@@ -138,7 +146,7 @@ def check(ctx, replay=None):
 
     def violate(key, obj):
         nonlocal viol
-        if viol < 4:
+        if len(ctx.violations) < 4:
             viol += 1
             ctx.violation(key, obj, True)
 
@@ -183,6 +191,17 @@ def check(ctx, replay=None):
                     goals.append(f"agree_rename {cstr(b)} {cpl} {coq_f(f)} {cstr(new)} {cstr('T%d' % k)} {cstr(observed)}")
                     meta.append((c, b))
                     want = new if holds else f"T{k}"
+                    # a rename on the module or the type never reaches the methods (for_inheritance ToMethodFromModule drops it)
+                    tfm = os.path.join(outs[("attr", b)], type_file(b, None, observed if observed != "?" else f"T{k}"))
+                    txtm = open(tfm).read() if os.path.exists(tfm) else ""
+                    if txtm and b != "demo_gen":
+                        m_old = re.search(r"\borig%dm\b" % k, txtm.replace(f"T{k}_orig{k}m", "")) is not None
+                        goals.append(f"String.eqb (rendered_name (method_attrs {cstr(b)} {'[(%s, PRename %s)]' % (coq_f(f), cstr(new)) if pl == 'module' else '[]'} [] []) {cstr('orig%dm' % k)}) "
+                                     f"{cstr(('orig%dm' % k) if m_old else '?')}")
+                        meta.append((c, b))
+                        if not m_old:
+                            violate(f"direct:rename-leak:{pl}", {"canary": c, "backend": b, "attr": f"#[diplomat::attr({rust_f(f)}, rename = \"{new}\")] on the {pl}",
+                                    "what": f"the method orig{k}m of the {c.get('kind', 'opaque')} type is no longer rendered under its own name: a rename on the {pl} applies to types only"})
                 else:
                     tf = os.path.join(outs[("attr", b)], type_file(b, None, f"T{k}"))
                     txt = open(tf).read() if os.path.exists(tf) else ""
@@ -217,7 +236,7 @@ def check(ctx, replay=None):
     else:
         syms = e2e.nm_symbols(lib)
         missing = [f"T{c['k']}_orig{c['k']}m" for c in canaries if f"T{c['k']}_orig{c['k']}m" not in syms] + \
-                  [f"T{c['k']}_destroy" for c in canaries if f"T{c['k']}_destroy" not in syms]
+                  [f"T{c['k']}_destroy" for c in canaries if c.get("kind", "opaque") == "opaque" and f"T{c['k']}_destroy" not in syms]
         exported_ok = not missing
         if missing:
             violate("direct:export", {"what": f"the Rust library no longer exports {missing[:5]} although diplomat::attr must not affect it"})
@@ -257,7 +276,7 @@ def check(ctx, replay=None):
             meta.append((c, b))
             shutil.rmtree(o, ignore_errors=True)
     fails = run_shards(PROP, HEADER, goals) if goals else []
-    if fails and viol == 0:
+    if fails and not ctx.violations:
         for f in fails[:3]:
             c, b = meta[f]
             ctx.violation(f"corr:{c['payload'] == 'disable' and 'disable' or 'rename'}:{c['place']}",
